@@ -214,6 +214,20 @@ def beamCX (E : Ext α) (cf : α) (wl : α) (extrapolate : Bool) (c : CXTable α
                     | none => Out.val 0
                     | some rate => Out.val rate
 
+/-- the multiplicative chain of `BeamCXPEC.evaluate` on already evaluated factors: for each factor in turn
+`rate *= f` (a factor whose interpolator raised ends the call with ValueError) followed, when `clamp` is set, by
+`if rate <= 0: return 0.0`; finally `return rate`.  The clamp flags are what the translator reads from the source
+(`RateClassSrc.chain`); the driver runs this function on raysect's own factor values. -/
+def cxChainF (rate : α) : List (Option α × Bool) → Out α
+  | [] => Out.val rate
+  | (none, _) :: _ => Out.valueError
+  | (some f, clamp) :: rest =>
+    let r := rate * f
+    if clamp = true ∧ r ≤ 0 then Out.val 0 else cxChainF r rest
+
+/-- the chain as the code has it: every factor clamped -/
+def cxChain (rate : α) (fs : List (Option α)) : Out α := cxChainF rate (fs.map fun f => (f, true))
+
 /-- `BeamCXPEC.evaluate` = the leading guard `if energy <= 0 or temperature <= 0 or density <= 0: return 0`
 (`guardTD = true`, the code since 57a68d0) in front of the interpolation chain `beamCX`.  `guardTD = false` is the
 energy-only guard of the earlier tree; the driver reads the flag from the generated class table, the theorems about
@@ -306,6 +320,11 @@ structure RateClassSrc where
   axisLogNumpy : Bool
   /-- `evaluate` of a Null class is `return 0.0` -/
   isNull : Bool
+  /-- multiplicative chain of `evaluate` (BeamCXPEC): (interpolator attribute, argument, followed by
+  `if rate <= 0: return 0.0`) for every `rate *= self._x.evaluate(arg)` / factor in the final `return` -/
+  chain : List (String × String × Bool)
+  /-- every statement of `evaluate` that touches `rate` was understood -/
+  chainOk : Bool
   deriving DecidableEq, Repr
 
 namespace Policy
@@ -442,6 +461,7 @@ structure RateClassModel where
   evalParams : List String
   guarded : List String
   extrap : List (String × String)
+  chain : List (String × String × Bool) := []
   deriving DecidableEq, Repr
 
 def e1 (k : String) : List (String × String) := [("extrapolation_type", k)]
@@ -451,21 +471,22 @@ def edt : List String := ["electron_density", "electron_temperature"]
 def ent : List String := ["energy", "density", "temperature"]
 
 def modelled : List RateClassModel := [
-  ⟨"IonisationRate", Shape.grid2, false, dt, dt, e1 "nearest"⟩,
-  ⟨"RecombinationRate", Shape.grid2, false, dt, dt, e1 "nearest"⟩,
-  ⟨"ThermalCXRate", Shape.grid2, false, dt, dt, e1 "linear"⟩,
-  ⟨"ImpactExcitationPEC", Shape.grid2, true, dt, dt, e1 "nearest"⟩,
-  ⟨"RecombinationPEC", Shape.grid2, true, dt, dt, e1 "nearest"⟩,
-  ⟨"ThermalCXPEC", Shape.grid3, true, edt ++ ["donor_temperature"], edt ++ ["donor_temperature"], e1 "nearest"⟩,
-  ⟨"LineRadiationPower", Shape.grid2, false, edt, edt, e1 "nearest"⟩,
-  ⟨"ContinuumPower", Shape.grid2, false, edt, edt, e1 "nearest"⟩,
-  ⟨"CXRadiationPower", Shape.grid2, false, edt, edt, e1 "linear"⟩,
-  ⟨"BeamStoppingRate", Shape.beam, false, ent, ent, eBeam⟩,
-  ⟨"BeamPopulationRate", Shape.beam, false, ent, ent, eBeam⟩,
-  ⟨"BeamEmissionPEC", Shape.beam, true, ent, ent, eBeam⟩,
+  ⟨"IonisationRate", Shape.grid2, false, dt, dt, e1 "nearest", []⟩,
+  ⟨"RecombinationRate", Shape.grid2, false, dt, dt, e1 "nearest", []⟩,
+  ⟨"ThermalCXRate", Shape.grid2, false, dt, dt, e1 "linear", []⟩,
+  ⟨"ImpactExcitationPEC", Shape.grid2, true, dt, dt, e1 "nearest", []⟩,
+  ⟨"RecombinationPEC", Shape.grid2, true, dt, dt, e1 "nearest", []⟩,
+  ⟨"ThermalCXPEC", Shape.grid3, true, edt ++ ["donor_temperature"], edt ++ ["donor_temperature"], e1 "nearest", []⟩,
+  ⟨"LineRadiationPower", Shape.grid2, false, edt, edt, e1 "nearest", []⟩,
+  ⟨"ContinuumPower", Shape.grid2, false, edt, edt, e1 "nearest", []⟩,
+  ⟨"CXRadiationPower", Shape.grid2, false, edt, edt, e1 "linear", []⟩,
+  ⟨"BeamStoppingRate", Shape.beam, false, ent, ent, eBeam, []⟩,
+  ⟨"BeamPopulationRate", Shape.beam, false, ent, ent, eBeam, []⟩,
+  ⟨"BeamEmissionPEC", Shape.beam, true, ent, ent, eBeam, []⟩,
   ⟨"BeamCXPEC", Shape.beamCX, true, ["energy", "temperature", "density", "z_effective", "b_field"],
     ["energy", "temperature", "density"],
-    [("extrapolation_type_log", "quadratic"), ("extrapolation_type", "nearest")]⟩]
+    [("extrapolation_type_log", "quadratic"), ("extrapolation_type", "nearest")],
+    [("_ti", "temperature", true), ("_ni", "density", true), ("_zeff", "z_effective", true), ("_b", "b_field", true)]⟩]
 
 def extrapOfString (s : String) : Extrap :=
   if s == "nearest" then Extrap.nearest else if s == "linear" then Extrap.linear
